@@ -159,6 +159,7 @@ fn run_resume(sc: &Scenario, cx: &mut Cx) -> CaseResult {
                 continue;
             }
         }
+        crate::engine::heartbeat();
         base.reset();
         let (r1, ctl1) = base.backup(sc.opts, Plan::FreezeAtKey { key: key.clone(), torn });
         let inner = json!((key.clone(), torn));
